@@ -15,11 +15,13 @@ import (
 	"sort"
 	"strconv"
 	"strings"
+	"time"
 
 	"github.com/tdewolff/parse/v2/js"
 
 	"verif/harness/internal/reg"
 	"verif/harness/internal/tr"
+	"verif/harness/internal/wd"
 )
 
 // class name -> concrete representatives (chosen by seed). The class alphabets per language are constants of
@@ -89,6 +91,7 @@ var jsOpts = []js.Options{{}, {WhileToFor: true}, {Inline: true}, {WhileToFor: t
 func runAll(w *tr.Writer, sum *summary, tid *int, langs []string, input []byte, gen tr.E, seen map[string]bool) {
 	for _, ln := range langs {
 		*tid++
+		wd.Case(map[string]interface{}{"lang": ln, "input": tr.Ints(input)})
 		w.Begin(*tid)
 		sum.Executions++
 		if strings.HasPrefix(ln, "js.parse") {
@@ -143,6 +146,7 @@ func Classes(args []string) {
 	seed := fs.Int64("seed", 1, "seed")
 	only := fs.String("langs", "", "comma separated entry points (default: all of the family)")
 	fs.Parse(args)
+	wd.Start(*out+".hang", 30*time.Second)
 	w := tr.NewWriter(*out)
 	sum := summary{Suite: "lexers", Mode: "classes"}
 	seen := map[string]bool{}
@@ -241,6 +245,7 @@ func Harvest(args []string) {
 	per := fs.Int("per", 200, "literals per family (sampled by seed)")
 	muts := fs.Int("muts", 6, "mutations per literal")
 	fs.Parse(args)
+	wd.Start(*out+".hang", 30*time.Second)
 	rng := rand.New(rand.NewSource(*seed))
 	w := tr.NewWriter(*out)
 	sum := summary{Suite: "lexers", Mode: "harvest"}
@@ -290,6 +295,7 @@ func File(args []string) {
 	out := fs.String("out", "", "trace file")
 	family := fs.Bool("family", false, "run every entry point of the language's family, not only the named one")
 	fs.Parse(args)
+	wd.Start(*out+".hang", 30*time.Second)
 	w := tr.NewWriter(*out)
 	sum := summary{Suite: "lexers", Mode: "file"}
 	seen := map[string]bool{}
